@@ -232,7 +232,7 @@ macro_rules! specs_for {
         both!(Lch<D65, T>, 3, 4, meta("Lch", Shape::Cylinder { height: 0, radius: 1 }, vec![pb("l", Lch::<D65, T>::min_l(), Lch::<D65, T>::max_l()), pmin("chroma", Lch::<D65, T>::min_chroma(), 128.0), ph()], Some("LabHue"), false, None));
         both!(Lchuv<D65, T>, 3, 4, meta("Lchuv", Shape::Cylinder { height: 0, radius: 1 }, vec![pb("l", Lchuv::<D65, T>::min_l(), Lchuv::<D65, T>::max_l()), pb("chroma", Lchuv::<D65, T>::min_chroma(), Lchuv::<D65, T>::max_chroma()), ph()], Some("LuvHue"), false, None));
         both!(Oklch<T>, 3, 4, meta("Oklch", Shape::Cylinder { height: 0, radius: 1 }, vec![pb("l", Oklch::<T>::min_l(), Oklch::<T>::max_l()), pmin("chroma", Oklch::<T>::min_chroma(), 1.0), ph()], Some("OklabHue"), false, None));
-        both!(Cam16UcsJmh<T>, 3, 4, meta("Cam16UcsJmh", Shape::Cylinder { height: 0, radius: 1 }, vec![pb("lightness", Cam16UcsJmh::<T>::min_lightness(), Cam16UcsJmh::<T>::max_lightness()), pmin("colorfulness", Cam16UcsJmh::<T>::min_colorfulness(), 50.0), ph()], Some("Cam16Hue"), false, None));
+        both!(Cam16UcsJmh<T>, 3, 4, meta("Cam16UcsJmh", Shape::Cylinder { height: 0, radius: 1 }, vec![pb("lightness", Cam16UcsJmh::<T>::min_lightness(), Cam16UcsJmh::<T>::max_lightness()), pb("colorfulness", Cam16UcsJmh::<T>::min_colorfulness(), Cam16UcsJmh::<T>::max_srgb_colorfulness()), ph()], Some("Cam16Hue"), false, None));
         // cones and bicones: [hue, radial, height]
         both!(Hsv<S, T>, 3, 4, meta("Hsv", Shape::Cone { s: 1, v: 2 }, vec![ph(), pb("saturation", Hsv::<S, T>::min_saturation(), Hsv::<S, T>::max_saturation()), pb("value", Hsv::<S, T>::min_value(), Hsv::<S, T>::max_value())], Some("RgbHue"), true, None));
         both!(Okhsv<T>, 3, 4, meta("Okhsv", Shape::Cone { s: 1, v: 2 }, vec![ph(), pb("saturation", Okhsv::<T>::min_saturation(), Okhsv::<T>::max_saturation()), pb("value", Okhsv::<T>::min_value(), Okhsv::<T>::max_value())], Some("OklabHue"), true, None));
